@@ -13,7 +13,8 @@ PROPERTY = "C17"
 LEVEL = "model_checking"
 CODE = ["sx/symsql.py (pin-crash case)", "yowsup/axolotl/store/sqlite/liteidentitykeystore.py:isTrustedIdentity/saveIdentity", "yowsup/axolotl/manager.py:create_session/trust_identity/encrypt/decrypt_pkmsg",
         "yowsup/layers/axolotl/layer_base.py:getKeysFor", "yowsup/layers/axolotl/layer_receive.py:handleEncMessage (untrusted branch)", "yowsup/layers/axolotl/layer_send.py:on_get_keys_process_errors"]
-BOUNDS = {"quick": "[+ 4 ways of building two stacks x which one switches the option on] " 
+BOUNDS = {"quick": "[+ flag: first group message of the reinstalled member] " 
+                   "[+ 4 ways of building two stacks x which one switches the option on] " 
                    "[+ trust decision: 3 contact ids in [0,2^40) pairwise different, three 33-byte keys] " 
                    "all histories of <= 3 events over {bundle A, bundle B, first message A, first message B, outgoing message, restart} x auto-trust on/off, 3 parties",
           "thorough": "histories of <= 5 events"}
